@@ -1,5 +1,5 @@
 (* C17 — refutation witnesses, non-vacuity examples and the soundness of the per-run check. *)
-From C17 Require Import Model Spec Steps ChanProofs MutexProofs CounterProofs FlatProofs ObsProofs Explore Corr.
+From C17 Require Import Model Spec Steps ChanProofs MutexProofs CounterProofs FlatProofs ObsProofs Explore Corr ScopeModel ScopeProofs.
 Local Open Scope Z_scope.
 
 (* ---- the per-run check: code 0 really exhibits a schedule of the model ---- *)
@@ -185,12 +185,32 @@ Definition marker_facts (tb : bool) : bool :=
 Example exit_by_marker : marker_facts false = true /\ marker_facts true = true.
 Proof. split; vm_compute; reflexivity. Qed.
 
-(* a return-from that is not the last form of with-mutex-lock does not leave it: the marker is dropped and the
-   body carries on (slip's forms only pass on the value of their last form; C07) -- the mutex is released at the end *)
-Definition ex_dropped : prog := mkP [] 1 [0] [[OBlock false 0 [OLock 0 [OExit false 0; OStore 0 (ZLit 5)]]; OLock 0 [OLoad 0]]].
-Example marker_dropped :
-  exists sf, run_sched (init ex_dropped) (repeat (0, 0)%nat 11) = Some sf /\ all_finished sf = true /\ mem sf = [5] /\ mus sf = [None].
+(* a return-from that is NOT the last form of with-mutex-lock leaves it all the same (after the repairs C07-1..21
+   every form passes the marker up from any position of its body): the store after it is skipped, the mutex is
+   released on the way, the block takes the marker, the routine locks the same mutex again and finishes *)
+Definition ex_midbody : prog := mkP [] 1 [0] [[OBlock false 0 [OLock 0 [OExit false 0; OStore 0 (ZLit 5)]]; OLock 0 [OLoad 0]]].
+Example marker_leaves_from_any_position :
+  (exists s4, run_sched (init ex_midbody) (repeat (0, 0)%nat 4) = Some s4 /\ mus s4 = [None] /\
+              ext (nth 0 (rs s4) (init_routine [])) = Some (false, 0%nat)) /\
+  exists sf, run_sched (init ex_midbody) (repeat (0, 0)%nat 9) = Some sf /\ all_finished sf = true /\ mem sf = [0] /\ mus sf = [None] /\
+             log (nth 0 (rs sf) (init_routine [])) = [EvLoad 0 0].
 Proof.
-  destruct (run_sched (init ex_dropped) (repeat (0, 0)%nat 11)) as [s|] eqn:E; [| vm_compute in E; discriminate].
-  exists s. split; auto. vm_compute in E. inversion E; subst. vm_compute. auto.
+  split.
+  - destruct (run_sched (init ex_midbody) (repeat (0, 0)%nat 4)) as [s|] eqn:E; [| vm_compute in E; discriminate].
+    exists s. split; auto. vm_compute in E. inversion E; subst. vm_compute. auto.
+  - destruct (run_sched (init ex_midbody) (repeat (0, 0)%nat 9)) as [s|] eqn:E; [| vm_compute in E; discriminate].
+    exists s. split; auto. vm_compute in E. inversion E; subst. vm_compute. auto.
+Qed.
+
+(* ---- the per-run replay of scope scenarios stays inside the model and its guard: every state it passes is a
+        state the scope theorems speak about ---- *)
+Lemma exec_code_reach : forall code st i acc st' acc',
+  sreach st -> exec_code st i code acc = Some (st', acc') -> sreach st'.
+Proof.
+  induction code as [|[o|k] code IH]; simpl; intros st i acc st' acc' R H.
+  - inversion H; subst; auto.
+  - destruct (guardb st i o) eqn:G; try discriminate.
+    destruct (sstep st i o) as [st1|] eqn:S; try discriminate.
+    eapply IH; [|eauto]. eapply sr_step; eauto. apply guardb_ok; auto.
+  - destruct (nth_error (stacks st) i) as [[|s0 rest]|]; try discriminate. eapply IH; eauto.
 Qed.
